@@ -42,12 +42,12 @@ theorem ascii_toUpper_toLower : ∀ n : Fin 128, (Char.ofNat n.val).toLower.toUp
 
 theorem toUpper_toUpper (c : Char) : c.toUpper.toUpper = c.toUpper := by
   rcases ascii_or_fixed c with h | ⟨h, _⟩
-  · exact forall_ascii ascii_toUpper_toUpper c h
+  · exact forall_ascii (P := fun c => c.toUpper.toUpper = c.toUpper) ascii_toUpper_toUpper c h
   · rw [h, h]
 
 theorem toUpper_toLower (c : Char) : c.toLower.toUpper = c.toUpper := by
   rcases ascii_or_fixed c with h | ⟨_, h⟩
-  · exact forall_ascii ascii_toUpper_toLower c h
+  · exact forall_ascii (P := fun c => c.toLower.toUpper = c.toUpper) ascii_toUpper_toLower c h
   · rw [h]
 
 /-- the letters whose upper-case form is one of the 15 codes, or `U` -/
@@ -135,22 +135,29 @@ theorem hashWith_err (rot : Str → Option Str) (blake : List UInt8 → List UIn
   obtain ⟨h1, h2, h3⟩ := str_ne
   unfold Accepted at h
   unfold hashWith
-  simp only [← all_contains_iff] at h
   change (if ty ≠ "DNA" ∧ ty ≠ "RNA" ∧ ty ≠ "PROTEIN" then Outcome.err else
     if (ty = "DNA" ∨ ty = "RNA") ∧ ¬ ((norm ty s).all fun c => nucleotideLetters.contains c) = true then Outcome.err else
     if ty = "PROTEIN" ∧ ¬ ((norm ty s).all fun c => proteinLetters.contains c) = true then Outcome.err else
     if ty = "PROTEIN" ∧ ds = true then Outcome.err else _) = _
+  simp only [all_contains_iff]
   by_cases hd : ty = "DNA"
-  · subst hd; simp_all
+  · subst hd
+    have hn : ¬ ∀ c ∈ norm "DNA" s, c ∈ nucleotideLetters := fun hn => h (Or.inl ⟨Or.inl rfl, hn⟩)
+    simp [hn]
   · by_cases hr : ty = "RNA"
-    · subst hr; simp_all
+    · subst hr
+      have hn : ¬ ∀ c ∈ norm "RNA" s, c ∈ nucleotideLetters := fun hn => h (Or.inl ⟨Or.inr rfl, hn⟩)
+      simp [hn]
     · by_cases hp : ty = "PROTEIN"
       · subst hp
-        simp only [h1.symm, h2.symm, h3.symm, or_self, false_and, true_and, false_or, not_and, Bool.not_eq_false] at h
-        simp only [ne_eq, not_true_eq_false, and_false, ↓reduceIte, h2.symm, h3.symm, or_self, false_and, true_and]
-        by_cases ha : ((norm "PROTEIN" s).all fun c => proteinLetters.contains c) = true
-        · simp [ha, h ha]
-        · simp [ha]
+        by_cases ha : ∀ c ∈ norm "PROTEIN" s, c ∈ proteinLetters
+        · have hds : ds = true := by
+            cases ds
+            · exact absurd (Or.inr ⟨rfl, ha, rfl⟩) h
+            · rfl
+          subst hds
+          simp [h2.symm, h3.symm]
+        · simp [ha, h2.symm, h3.symm]
       · simp [hd, hr, hp]
 
 /-- on accepted input the hash with the arg-min rotation is the v1 form of the canonical representative -/
@@ -160,7 +167,6 @@ theorem hashSpec_ok (blake : List UInt8 → List UInt8) (s : Str) (ty : String) 
   obtain ⟨h1, h2, h3⟩ := str_ne
   unfold Accepted at h
   unfold hashSpec hashWith
-  simp only [← all_contains_iff] at h
   change (if ty ≠ "DNA" ∧ ty ≠ "RNA" ∧ ty ≠ "PROTEIN" then Outcome.err else
     if (ty = "DNA" ∨ ty = "RNA") ∧ ¬ ((norm ty s).all fun c => nucleotideLetters.contains c) = true then Outcome.err else
     if ty = "PROTEIN" ∧ ¬ ((norm ty s).all fun c => proteinLetters.contains c) = true then Outcome.err else
@@ -169,12 +175,13 @@ theorem hashSpec_ok (blake : List UInt8 → List UInt8) (s : Str) (ty : String) 
     | none => Outcome.panic
     | some d => Outcome.ok (v1 blake ty circ ds d)) = _
   rw [canon_spec]
+  simp only [all_contains_iff]
   rcases h with ⟨hty, hl⟩ | ⟨hty, hl, hds⟩
   · rcases hty with rfl | rfl
-    · simp [hl, h1, h2]
-    · simp [hl, h1, h3]
+    · simp [h2]; exact hl
+    · simp [h3]; exact hl
   · subst hty; subst hds
-    simp [hl]
+    simp; exact hl
 
 theorem hashSpec_err (blake : List UInt8 → List UInt8) (s : Str) (ty : String) (circ ds : Bool)
     (h : ¬ Accepted ty ds (norm ty s)) : hashSpec blake s ty circ ds = .err :=
@@ -302,9 +309,9 @@ theorem normC_complementBase {ty : String} {c : Char} (h : normC ty c ∈ upperC
 /-- normalisation commutes with reverse complement on sequences whose normal form is over the 15 codes -/
 theorem norm_revComp {ty : String} {s : Str} (h : Iupac15 (norm ty s)) :
     norm ty (revComp s) = revComp (norm ty s) := by
-  rw [norm_eq_map] at *
+  simp only [norm_eq_map] at *
   unfold Transform.revComp complement
-  rw [List.map_reverse, List.map_map, List.map_map]
+  simp only [List.map_reverse, List.map_map]
   congr 1
   apply List.map_congr_left
   intro c hc
